@@ -288,11 +288,15 @@ def main_source(case, extra_sites=()):
     vis = ""
     # the 1-byte section that makes the site's section start at an odd address must survive --gc-sections
     keep = "    cmpb $0x5a, vt_shift(%rip)\n    jne 8f\n" if case.get("shift") else ""
+    if case.get("sibling"):
+        keep += "    lea vt_sib(%rip), %rcx\n"
     t += f""".text
 .globl vt_main
 .type vt_main,@function
 vt_main:
+    .cfi_startproc
     push %rbx
+    .cfi_adjust_cfa_offset 8
 {keep}{body}    xor %eax, %eax
     pop %rbx
     ret
@@ -300,6 +304,7 @@ vt_main:
     mov $1, %eax
     pop %rbx
     ret
+    .cfi_endproc
 .size vt_main, .-vt_main
 {vis}"""
     if out != "shared":
@@ -314,6 +319,10 @@ _start:
     syscall
 """
     t += datasec
+    if case.get("sibling"):
+        # another pointer of this file at an even offset and an even address: with RELR enabled the
+        # layout reserves a RELR entry for it, so the file's writer owns a RELR table
+        t += '.section .data.sib,"aw",@progbits\n.balign 8\nvt_sib: .quad vt_sib_t\nvt_sib_t: .quad 0\n'
     return t
 
 
@@ -418,6 +427,8 @@ def build_case(case, d, tb):
     flags = []
     for r in [case["ref"]] + list(case.get("extra", ())):
         flags += REFS[r].get("asflags", [])
+    if case.get("dbg"):
+        flags += ["--gdwarf-4"]
     o = assemble(p, extra=flags)
     objs = [o, tb.defs[case["sym"]]]
     if case.get("shift"):
